@@ -339,3 +339,117 @@ Proof.
   destruct t as [|x r]; [reflexivity|].
   rewrite apply_trcls_plain, converted_plain. reflexivity.
 Qed.
+
+(* ---- what the block never does (no guard) -------------------------------- *)
+
+(* every entry comes from a flagged entry of the dictionary *)
+Lemma bc_entry_key t l kd k :
+  bc_entries t = Ok l -> In (kd, k) l -> exists e, In (k, e) t /\ e_flag e <> "".
+Proof.
+  unfold bc_entries. intros H Hin. destruct (recuperate t) as [l0|] eqn:Er; [|discriminate].
+  assert (Hk : In k (map snd l)) by (apply in_map_iff; exists (kd, k); auto).
+  rewrite (conv_kinds_keys _ _ _ H), (recuperate_keys _ _ Er) in Hk.
+  apply in_map_iff in Hk. destruct Hk as [[k' e] [Hk Hf]]. cbn in Hk. subst k'.
+  apply filter_In in Hf. destruct Hf as [Hin' Hfl]. exists e. split; [assumption|].
+  cbn in Hfl. unfold flagged in Hfl. intros Hc. rewrite Hc in Hfl. discriminate.
+Qed.
+
+Lemma count_one_unique k l : forall a b,
+  count_key k l = 1%nat -> In (a, k) l -> In (b, k) l -> a = b.
+Proof.
+  unfold count_key. induction l as [|[kd k'] r IH]; intros a b Hc Ha Hb; [destruct Ha|].
+  cbn in Hc. destruct (N.eqb k' k) eqn:E.
+  - cbn in Hc. assert (Hz : List.length (filter (fun x => N.eqb (snd x) k) r) = 0%nat) by lia.
+    assert (Hno : forall x, In (x, k) r -> False).
+    { intros x Hx. assert (Hf : In (x, k) (filter (fun y => N.eqb (snd y) k) r)).
+      { apply filter_In. split; [assumption|]. cbn. apply N.eqb_refl. }
+      destruct (filter (fun y => N.eqb (snd y) k) r); [destruct Hf|discriminate]. }
+    destruct Ha as [Ha|Ha]; [|exfalso; eapply Hno; eauto].
+    destruct Hb as [Hb|Hb]; [|exfalso; eapply Hno; eauto].
+    congruence.
+  - destruct Ha as [Ha|Ha]; [inversion Ha; subst; rewrite N.eqb_refl in E; discriminate|].
+    destruct Hb as [Hb|Hb]; [inversion Hb; subst; rewrite N.eqb_refl in E; discriminate|].
+    eapply IH; eauto.
+Qed.
+
+(* ... and has the kind of that entry's flag *)
+Theorem bc_entry_sound t l kd k :
+  NoDup (map fst t) -> bc_entries t = Ok l -> In (kd, k) l ->
+  exists e, In (k, e) t /\ e_flag e <> "" /\
+    (e_flag e = "*" -> kd = Reflection) /\ (e_flag e = "+" -> kd = Cosinus).
+Proof.
+  intros Hnd H Hin. destruct (bc_entry_key _ _ _ _ H Hin) as [e [He Hf]].
+  exists e. split; [assumption|]. split; [assumption|].
+  pose proof (bc_one_per_flag t l k e Hnd H He) as Hc.
+  destruct (String.eqb (e_flag e) "") eqn:E0; [apply String.eqb_eq in E0; contradiction|].
+  destruct (bc_kind t l k e H He) as [Hs [Hp _]].
+  split; intros Hfl.
+  - eapply count_one_unique; eauto.
+  - eapply count_one_unique; eauto.
+Qed.
+
+(* an entry never designates a written surface of another locus: when the
+   designated number is a SURF line at all, that line carries the descriptor
+   of the flagged surface (or copy) the entry was made for *)
+Lemma finish_never_other_locus cfg t cells surfs bcs kd k d :
+  NoDup (map fst t) -> finish cfg t cells = Ok (surfs, bcs) ->
+  In (kd, k) bcs -> In (k, d) surfs ->
+  exists e, In (k, e) t /\ d = e_first e /\ e_flag e <> "" /\
+    (e_flag e = "*" -> kd = Reflection) /\ (e_flag e = "+" -> kd = Cosinus).
+Proof.
+  intros Hnd Hfin Hb Hs. unfold finish in Hfin.
+  destruct (geometry (negb (skip_dedup cfg)) t cells) as [surfs'|] eqn:Egeo; [|discriminate].
+  destruct (skip_bc cfg).
+  - inversion Hfin; subst. destruct Hb.
+  - destruct (bc_entries t) as [bcs'|] eqn:Ebc; [|discriminate]. inversion Hfin; subst surfs' bcs'.
+    destruct (bc_entry_sound t bcs kd k Hnd Ebc Hb) as [e [He [Hf [H1 H2]]]].
+    exists e. split; [assumption|]. split; [|auto].
+    destruct (proj1 (written_surfaces_exact _ _ _ _ k d Egeo) Hs) as [Hd _].
+    rewrite (number_items_get t k e Hnd He) in Hd. inversion Hd. reflexivity.
+Qed.
+
+Theorem bc_never_other_locus cfg cards tcells t cells t' surfs bcs kd k d :
+  parse_cards cards [] = Ok t ->
+  apply_trcls tcells t (N.succ (max_key t)) = Ok (cells, t') ->
+  run_t cfg cards tcells = Ok (surfs, bcs) ->
+  In (kd, k) bcs -> In (k, d) surfs ->
+  exists e, In (k, e) t' /\ d = e_first e /\ inherits t e /\ e_flag e <> "" /\
+    (e_flag e = "*" -> kd = Reflection) /\ (e_flag e = "+" -> kd = Cosinus).
+Proof.
+  intros Hp Ha Hrun Hb Hs.
+  destruct (run_t_unfold _ _ _ _ Hrun) as [t0 [cells0 [t0' [Hp0 [Ha0 Hfin]]]]].
+  rewrite Hp in Hp0. inversion Hp0; subst t0. rewrite Ha in Ha0. inversion Ha0; subst cells0 t0'.
+  pose proof (parsed_keys_distinct _ _ Hp) as Hnd.
+  destruct (expanded_table _ _ _ _ Hnd Ha) as [Hnd' [_ Hinh]].
+  destruct (finish_never_other_locus _ _ _ _ _ _ _ _ Hnd' Hfin Hb Hs) as [e [He [Hd [Hf Hk]]]].
+  exists e. split; [assumption|]. split; [assumption|]. split; [eauto|]. split; assumption.
+Qed.
+
+(* the whole block of a deck with MCNP's flags only and no flagged macrobody:
+   the flagged cards in card order, then the copies of flagged surfaces in
+   cell and literal order *)
+Lemma proper_expanded t cells t' cs :
+  NoDup (map fst t) -> proper t ->
+  apply_trcls cs t (N.succ (max_key t)) = Ok (cells, t') -> proper t'.
+Proof.
+  intros Hnd Hp Ha k e Hin.
+  destruct (expanded_table _ _ _ _ Hnd Ha) as [_ [_ Hinh]].
+  destruct (Hinh k e Hin) as [k0 [e0 [Hin0 [Hf Hm]]]]. rewrite Hf, Hm. eapply Hp; eauto.
+Qed.
+
+Theorem run_t_block_exact cfg cards tcells t cells t' surfs bcs :
+  skip_bc cfg = false ->
+  parse_cards cards [] = Ok t -> proper t ->
+  apply_trcls tcells t (N.succ (max_key t)) = Ok (cells, t') ->
+  run_t cfg cards tcells = Ok (surfs, bcs) ->
+  bcs = flat_map entry_of t'.
+Proof.
+  intros Hs Hp Hpr Ha Hrun.
+  destruct (run_t_unfold _ _ _ _ Hrun) as [t0 [cells0 [t0' [Hp0 [Ha0 Hfin]]]]].
+  rewrite Hp in Hp0. inversion Hp0; subst t0. rewrite Ha in Ha0. inversion Ha0; subst cells0 t0'.
+  pose proof (parsed_keys_distinct _ _ Hp) as Hnd.
+  pose proof (proper_expanded _ _ _ _ Hnd Hpr Ha) as Hpr'.
+  unfold finish in Hfin.
+  destruct (geometry (negb (skip_dedup cfg)) t' (converted cells)); [|discriminate].
+  rewrite Hs, (bc_entries_exact t' Hpr') in Hfin. inversion Hfin. reflexivity.
+Qed.
